@@ -77,6 +77,7 @@ func runC09(c *engine.Ctx, tier string) {
 	}
 	controllerWiring(c)
 	managerWiring(c)
+	everyOpenPhaseIsServed(c)
 }
 
 // returnsNoWake matches a root return that carries neither a re-queue nor an error.
@@ -456,6 +457,32 @@ func managerWiring(c *engine.Ctx) {
 						Msg: "the error of " + sel.Sel.Name + " is not tested and returned: the manager reports 'started' without that controller"})
 				}
 			}
+		}
+	}
+}
+
+// everyOpenPhaseIsServed: C09.9. A record that carries an open phase reaches that phase's function.
+func everyOpenPhaseIsServed(c *engine.Ctx) {
+	type ph struct{ name, fn string }
+	for _, x := range []struct {
+		id, pkg, alias, fnPfx string
+		aliases              *engine.Aliases
+	}{
+		{"C09.9/transaction", pkgTransactionCtl, "@T", "controller/v2/transaction.Reconciler.", transactionAliases(c.P)},
+		{"C09.9/proposal", pkgProposalCtl, "@P", "controller/v2/proposal.Reconciler.", proposalAliases(c.P)},
+	} {
+		c.Al = x.aliases
+		phases := []ph{{"Apply", "reconcileApply"}, {"Abort", "reconcileAbort"}, {"Commit", "reconcileCommit"}, {"Validate", "reconcileValidate"}, {"Initialize", "reconcileInitialize"}}
+		for i, p := range phases {
+			when := "err(" + x.alias + ") == nil"
+			for j := 0; j < i; j++ {
+				when += " && " + x.alias + ".Status.Phases." + phases[j].name + " == nil"
+			}
+			when += " && " + x.alias + ".Status.Phases." + p.name + " != nil"
+			c.Outcome(engine.Outcome{ID: x.id + "/" + p.name, Pkg: x.pkg, Root: "Reconciler.Reconcile", Min: 1, Consistent: true,
+				When: when,
+				Must: []engine.Sel{{Call: x.fnPfx + p.fn}},
+				Why:  "whatever else the record says (its summary state, its age), a record whose " + p.name + " phase is open — and no phase of higher precedence — is handed to " + p.fn + ": an early exit in front of the dispatcher strands it"})
 		}
 	}
 }
